@@ -80,7 +80,12 @@ func pickTxs(ref *vapp.Transcript, rng *rand.Rand, k int) []pick {
 	for bi, b := range ref.Blocks {
 		for ri, t := range b.Txs {
 			if t.Included && t.Check != nil && t.Check.Code == 0 && t.B != nil && t.Deliver != nil && t.Deliver.Code == 0 && t.Path == "honest" {
-				byKind[t.Req.Kind] = append(byKind[t.Req.Kind], pick{bi, ri})
+				// accepted requests of an adversarial class (a sequence number with a gap, a large amount ...) are a kind of their own
+				kd := t.Req.Kind
+				if t.Req.Class != "" {
+					kd += "/" + t.Req.Class
+				}
+				byKind[kd] = append(byKind[kd], pick{bi, ri})
 			}
 		}
 	}
